@@ -231,7 +231,30 @@ def run(ctx):
             cb, cb_form = as_callback(experiment, rng)
             ctx.bucket("callback_is_" + cb_form)
             case["callback_form"] = cb_form
+            armed = {"on": bool(rng.random() < 0.1), "how": str(rng.choice(["raises", "too_few_results", "empty_results"]))}
+            if armed["on"]:
+                # an experiment that fails the first time (raises / returns unusable data); process() is then called again on
+                # the same object with the experiment working
+                good_cb = cb
+
+                def cb(circuits, *a, _g=good_cb, **k):  # noqa: E306
+                    if not armed["on"]:
+                        return _g(circuits, *a, **k)
+                    if armed["how"] == "raises":
+                        raise RuntimeError("laboratory on fire")
+                    res_ = _g(circuits, *a, **k)
+                    seen["settings"].clear(); seen["data"].clear(); seen["problems"].clear()
+                    return res_[:-1] if armed["how"] == "too_few_results" else [{} for _ in res_]
             st = tomo.StateTomography(n, base, cb)
+            if armed["on"]:
+                try:
+                    st.process()
+                    ctx.count("first_run_with_unusable_data_did_not_fail:" + armed["how"])
+                except Exception as e_:  # noqa: BLE001
+                    ctx.bucket("process_called_again_after_failed_run")
+                    ctx.count("failed_first_run:" + armed["how"] + ":" + type(e_).__name__)
+                armed["on"] = False
+                seen["settings"].clear(); seen["data"].clear(); seen["problems"].clear()
             rho = st.process()
             fid = st.fidelity(rho_exp)
         except Exception as e:  # noqa: BLE001
